@@ -88,6 +88,7 @@ def build(ctx):
     g.trace('tr_norm1', [('a', 'S')], lambda a: base.norm([a]))
     # ---- adjoint, Jacobian, differential motion (base layer)
     g.trace('tr_adjoint', [('X', 'M44')], base.adjoint)
+    g.trace('tr_adjoint3', [('X', 'M33')], base.adjoint, sampler=lambda rng: [rand_rot(rng)])
     g.trace('tr_tr2jac', [('X', 'M44')], base.tr2jac)
     g.trace('tr_tr2jac_sb', [('X', 'M44')], lambda X: base.tr2jac(X, samebody=True))
     g.trace('tr_delta2tr', [('d', 'V6')], base.delta2tr)
@@ -96,6 +97,7 @@ def build(ctx):
     g.trace('tr_trinv', [('X', 'M44')], base.trinv)
     # ---- class layer
     g.trace('tr_SE3_Ad', [('X', 'M44')], lambda X: pose(X).Ad())
+    g.trace('tr_SE3_jacob', [('X', 'M44')], lambda X: pose(X).jacob())
     g.trace('tr_SE3_delta', [('X', 'M44'), ('Y', 'M44')], lambda X, Y: pose(X).delta(pose(Y)))
     g.trace('tr_SE3_mul', [('X', 'M44'), ('Y', 'M44')], lambda X, Y: (pose(X) * pose(Y)).A)
     g.trace('tr_SE3_inv', [('X', 'M44')], lambda X: pose(X).inv().A)
@@ -120,59 +122,11 @@ def rel_term(rel):
     raise RuntimeError(f"unsupported relational in a path condition: {rel}")
 
 
-# ------------------------------------------------------------------------------------------------ outcomes
-def outcome(fn, make_args, rng, n=6):
-    """run an entry point on n sampled numeric inputs; returns 'ok' or the exception kind if it raises on ALL of
-    them, or 'mixed:<kinds>' """
-    kinds = set()
-    for _ in range(n):
-        try:
-            fn(*make_args(rng))
-            kinds.add('ok')
-        except Exception as ex:  # noqa
-            kinds.add(exc_kind(ex))
-    return kinds.pop() if len(kinds) == 1 else 'mixed:' + ','.join(sorted(kinds))
-
-
-GUARDED = [
-    # (name, inputs, out shape, library call, sampler): entry points that are traced when they run and are recorded
-    # with the exception kind they raise when they do not
-    ('tr_adjoint3', [('X', 'M33')], 'M66', base.adjoint, lambda rng: [rand_rot(rng)]),
-    ('tr_SE3_jacob', [('X', 'M44')], 'M66', lambda X: pose(X).jacob(), lambda rng: [s_se3(rng)]),
-]
-
-
+# ------------------------------------------------------------------------------------------------ extra generated text
 def gen_text(ctx, g):
-    """generated Coq text: the traces, plus (a) result-typed definitions for the guarded entry points: `PyOk trace`
-    when the real code runs, `PyRaises kind` when it raises that kind on symbols and on every sampled numeric
-    input; (b) the tolerance the rotation-validity test uses, read from the code; (c) colvec (no arithmetic)."""
-    ctx.guarded = {}
-    extra = ["\n(* ---- entry points recorded with their outcome (regenerated from /repo on every run) ---- *)\n",
-             "Inductive pyexc := " + " | ".join(EXC_KINDS) + ".\n",
-             "Inductive pyres (A : Type) := PyOk (a : A) | PyRaises (e : pyexc).\nArguments PyOk {A} a. Arguments PyRaises {A} e.\n"]
-    for name, inputs, out, fn, sampler in GUARDED:
-        t = g.trace(name + '_ok', inputs, fn, out=out, sampler=sampler, optional=True)
-        num = outcome(fn, sampler, ctx.rng)
-        binders = " ".join(f"({an} : {sh} T)" for an, sh in inputs)
-        args = " ".join(an for an, _ in inputs)
-        if t is not None and num == 'ok':
-            body = f"PyOk ({name}_ok O {args})"
-            ctx.guarded[name] = 'ok'
-        else:
-            sym_kind = g.failed[-1][1].split(':')[0] if t is None else 'ok'
-            sym_kind = 'NameError' if sym_kind == 'UnboundLocalError' else sym_kind
-            if t is not None:        # symbolic run fine but numeric run raises: drop the trace, keep the numeric outcome
-                g.traces.remove(t)
-            if num.startswith('mixed') or (t is None and sym_kind != num and num != 'ok'):
-                raise RuntimeError(f"{name}: outcome not uniform (symbolic {sym_kind}, numeric {num})")
-            kind = num if num != 'ok' else (sym_kind if sym_kind in EXC_KINDS else 'OtherError')
-            body = f"PyRaises {kind}"
-            ctx.guarded[name] = kind
-        extra.append((name, binders, out, body))
-    head = g.coq_text()
-    txt = [head, extra[0], extra[1], extra[2]]
-    for name, binders, out, body in extra[3:]:
-        txt.append(f"Definition {name} {{T}} (O : ops T) {binders} : pyres ({out} T) := {body}.\n")
+    """generated Coq text: the traces, plus (a) the path conditions of the concolic traces; (b) the tolerance the
+    rotation-validity test of the SE3 constructor uses, read from the code; (c) colvec (no arithmetic)."""
+    txt = [g.coq_text()]
     # path conditions of the concolic traces: conjunction of the recorded comparisons, as a boolean over the ops record
     for name, (inputs, path) in getattr(g, 'paths', {}).items():
         binders = " ".join(f"({an} : {sh} T)" for an, sh in inputs)
@@ -458,15 +412,15 @@ def oracle(ctx):
 
         except Exception as ex:  # noqa
             section_failed('exp-ad', ex, i)
-    # ---------------- entry points with a recorded outcome: confirmed on the real code
+    # ---------------- adjoint of a rotation, SE3.jacob (repaired in /repo: a raise or a wrong value is a violation again)
     for k in range(ctx.n(5, 50)):
         Rm, T = rand_rot(rng), rand_se3(rng, 1e-3, 1e3)
-        r = guard('adjoint(3x3)', lambda: base.adjoint(Rm), Rm)
+        r = guard('adjoint-of-rotation', lambda: base.adjoint(Rm), Rm)        # (new key: the old one is a fixed entry)
         if r is not None:
-            chk('adjoint(3x3)-value', lambda: (r), lambda: (blkdiag(Rm, Rm)), 1.0, Rm)
-        r = guard('SE3.jacob', lambda: SE3(T, check=False).jacob(), T)
+            chk('adjoint-of-rotation-value', lambda: (r), lambda: (blkdiag(Rm, Rm)), 1.0, Rm)
+        r = guard('SE3.jacob()', lambda: SE3(T, check=False).jacob(), T)
         if r is not None:
-            chk('SE3.jacob-value', lambda: (r), lambda: (blkdiag(T[:3, :3].T, T[:3, :3].T)), 1.0, T)
+            chk('SE3.jacob()-value', lambda: (r), lambda: (blkdiag(T[:3, :3].T, T[:3, :3].T)), 1.0, T)
     try:
         ctx.sample({'kind': 'oracle', 'identity': 'Ad-hom', 'T1': T1.tolist(), 'T2': T2.tolist()})
         ctx.sample({'kind': 'oracle', 'identity': 'exp-ad=Ad-exp', 'S': Sx.tolist()})
@@ -499,10 +453,7 @@ def run(ctx):
         with ctx.timed('oracle'):
             oracle(ctx)
         return
-    ctx.stats['guarded_outcomes'] = dict(ctx.guarded)
-    files = ['C13_maps.v', 'C13_adjoint.v', 'C13_delta.v', 'C13_log.v', 'C13_findings.v',
-             'C13_adjoint3_full.v' if ctx.guarded['tr_adjoint3'] == 'ok' else 'C13_adjoint3_asis.v',
-             'C13_jacob_full.v' if ctx.guarded['tr_SE3_jacob'] == 'ok' else 'C13_jacob_asis.v']
+    files = ['C13_maps.v', 'C13_adjoint.v', 'C13_delta.v', 'C13_log.v', 'C13_findings.v']
     if ctx.thorough:
         files.append('C13_extra.v')
     for f in files:
